@@ -27,6 +27,7 @@ CHECKER = "./bin/check C04"
 
 X25 = [round(0.5 + 0.1 * i, 3) for i in range(25)]
 X40 = [round(0.2 + 0.12 * i, 3) for i in range(40)]
+XPM = [round(-1.0 + 0.1 * i, 3) for i in range(21)]      # symmetric grid containing exactly -1, 0 and +1 (poles of 1/(a0 + x) at a0 = +-1)
 
 # name -> (planted function string per (runname, complexity), truth as python source in t)
 TRUTHS = {
@@ -86,6 +87,8 @@ def jobs(tier, seed):
             add("core_maths", comp, [dataset(seed, "core_maths", comp, n, pl, src, s, X25) for n, pl, src in TRUTHS[("core_maths", comp)]],
                 per_call=3 if comp == 3 else 2)
     add("core_maths", 4, [dataset(seed, "core_maths", 4, n, pl, src, 0.1, X25) for n, pl, src in TRUTHS[("core_maths", 4)][:2]], P=3, sfx="-P3")
+    # a truth whose unit-parameter probes (a0 = +-1) all have a pole on the data grid, while the truth itself (a0 = 3) is regular
+    add("core_maths", 4, [dataset(seed, "core_maths", 4, "pole", "1/(a0 + x)", "1.0/(3.0 + t)", 0.02, XPM)], sfx="-xpm")
     if tier != "quick":
         for s in noises:
             add("core_maths", 5, [dataset(seed, "core_maths", 5, n, pl, src, s, X25) for n, pl, src in TRUTHS[("core_maths", 5)]], per_call=1)
